@@ -226,46 +226,7 @@ class TriggerOracle(Observer):
                                   {"spec": spec, "upto": i})
 
 
-def carry_tree(rng, spec):
-    """market-value root holding coupon-paying securities directly (carry parked on the security and swept on the next date),
-    plain securities and a sub-strategy; levered so that crashes bankrupt it"""
-    T = spec["T"]
-    kinds = [2, 2, 4, 0]
-    rng.shuffle(kinds)
-    kids = []
-    for t, k in zip(["a", "b", "c", "d"], kinds[:rng.randint(2, 4)]):
-        kids.append({"sec": t, "kind": k, "mult": rng.choice([1.0, 1.0, 10.0]), "cfi": False})
-    if rng.random() < 0.4:
-        kids.append({"name": "s00", "fi": False, "algos": False, "kids": [{"sec": "e", "kind": 0, "mult": 1.0, "cfi": True}]})
-    spec["tree"] = {"name": "root", "fi": False, "algos": False, "kids": kids}
-    big = rng.random() < 0.6
-    spec["coupons"] = {t: [rng.choice([0.0, 0.5, 2.0, 5.0]) * (3.0 if big else 1.0) for _ in range(T)] for t in G.TICKERS}
-    spec["cost_long"] = {t: [rng.choice([0.0, 0.125]) for _ in range(T)] for t in G.TICKERS} if rng.random() < 0.5 else None
-    spec["cost_short"] = None
-    # crash paths
-    for t, col in spec["prices"].items():
-        p = float(rng.randint(20, 60))
-        path = []
-        for j in range(T):
-            p = max(1.0, p + rng.choice([-12.0, -6.0, -3.0, 1.0, 2.0, -20.0]))
-            path.append(p)
-        spec["prices"][t] = path
-    cap = spec["capital"]
-    ops = [{"op": "adjust", "path": [], "amount": cap, "update": True, "flow": True}, {"op": "update", "d": 0}]
-    secs = [p for p in G.all_paths(spec["tree"]) if p[1]]
-    lev = rng.choice([1.0, 1.5, 2.0, 3.0])
-    for p in secs:
-        px = spec["prices"][p[2]["sec"]][0] * p[2]["mult"]
-        q = float(int(lev * cap / (len(secs) * px))) or 1.0
-        ops.append({"op": "transact", "path": p[0], "q": q, "update": rng.random() < 0.5, "price": None})
-    ops.append({"op": "update", "d": 0})
-    for d in range(1, T):
-        ops.append({"op": "update", "d": d})
-        if rng.random() < 0.3:
-            ops.append({"op": "update", "d": d})
-        if rng.random() < 0.3:
-            ops.append({"op": "observe", "on": "real"})
-    spec["ops"] = ops
+carry_tree = G.carry_tree
 
 
 def run(ctx, bt):
